@@ -225,6 +225,7 @@ func RunProgram(
 	postings := make([]Posting, 0)
 	for _, statement := range program.Statements {
 		statementPostings, err := st.runStatement(statement)
+		verifEmit(ctx, "stmt", statement, statementPostings, err)
 		if err != nil {
 			return nil, err
 		}
@@ -330,6 +331,7 @@ func (st *programState) getPostings() ([]Posting, InterpreterError) {
 		destBalance := st.getCachedBalance(posting.Destination, posting.Asset)
 		destBalance.Add(destBalance, posting.Amount)
 	}
+	verifEmit(st.ctx, "applied", st.CachedBalances)
 	return postings, nil
 }
 
@@ -365,6 +367,7 @@ func (st *programState) runSaveStatement(saveStatement parser.SaveStatement) ([]
 		}
 	}
 
+	verifEmit(st.ctx, "applied", st.CachedBalances)
 	return nil, nil
 }
 
